@@ -49,11 +49,13 @@ LEVEL_TEXT = ('Proof: for all non-zero beams (any length units), positive wavele
               'Q = (2 pi/lambda)(e_i - e_f) component-wise and as a vector, |Q| = 4 pi sin(theta)/lambda with 2theta = angle(b_i,b_f) and equal to '
               'the regenerated scalar Q_from_wavelength(two_theta); Q is independent of beam lengths and commutes with orthogonal maps; '
               'hkl_vec_from_Q_vec returns the unique solution of 2 pi R UB hkl = Q for every R, UB with det(R UB) <> 0, for ANY units of Q, R, UB '
-              '(numbers independent of the units, unit = unit(Q)/(unit(R) unit(UB))); UB = U*B; '
+              '(numbers independent of the units, unit = unit(Q)/(unit(R) unit(UB))); UB = U*B; B of EITHER handedness: for B P (P invertible; '
+              'det(B P) = -det(B) for a mirror P) ub_matrix_from_u_and_b then hkl_vec_from_Q_vec return P^-1 hkl(B), no sign hypothesis on any determinant; '
               'split/join of components is the identity both ways. Residual conditioning validated in Coq per case (64 kappa u).')
 LEVEL_NOTE = ('Trusted: Coq kernel; std-lib real axioms; py2coq; Sem/Val.v model of scipp spatial dtypes (inv = adjugate/det, rotation3 as '
               'matrix); rounding covered by tolerances, the residual bound is _partial.')
-TECHNIQUE = ('Coq proof on regenerated terms (cbv + field; Vec/Vec3.v algebra: adjugate inverse, orthogonal maps, |e_i-e_f| = 2 sin theta) '
+TECHNIQUE = ('Coq proof on regenerated terms (cbv + field; Vec/Vec3.v algebra: adjugate inverse, orthogonal maps, |e_i-e_f| = 2 sin theta; '
+             'C08/Basis.v: change of reciprocal basis, mirrors flip the sign of det) '
              '+ vm_compute correspondence (rounded rationals) incl. exact kappa_inf and residual per case, on independent groups and on '
              'call histories (same numbers re-used in one process with other units / dtypes / shapes; statement re-evaluated on every step, '
              'failing steps re-run alone in a fresh process)')
